@@ -248,6 +248,8 @@ def make_trial(t):
             opts.append('-k')
         if rng.random() < 0.3:
             opts.append('-f')
+    if rng.random() < 0.3:
+        opts.append(rng.choice(['-v', '--verbose']))   # info lines interleave
     if rng.random() < 0.45:
         opts.append(rng.choice(['-u', '--sequential']))
     opts += ['-n', str(rng.choice([1, 1, 2, 3, 4, 8]))]
